@@ -192,6 +192,11 @@ def r3(run, db):
                         return True
             return False
         preds = [g for g in db.children(f.id) if any(c.callee and re.search(r"::(is_processing_key|has_pending_key)$", c.callee) for c in g.calls())]
+        # the scan over the pool: the find-like call that is handed one of these predicates (other scans -- the idle-worker
+        # deque -- have their own)
+        pscan = [c for c in scan if any(r["k"] == "agg" and r["stmt"]["rv"].get("def") in [g.id for g in preds] for a_ in c.args[1:] for r in f.origins(a_))]
+        if pscan:
+            scan = pscan
         run.check(len(scan) == 1 and len(preds) >= 1, "sticky|processing-scan", "sticky scans the pool for a worker the key is owed to", "key scan missing", f.where())
         for g in preds:
             run.check(reads_pending(g), "sticky|scan-counts-queued-jobs", "the scan predicate consults the pending-key table (jobs in flight and queued)",
@@ -252,7 +257,8 @@ def r4(run, db):
     rm = [c for c in wc.calls() if c.matches(r"HashMap::<K, V, S, A>::remove$")]
     if u and rm:
         iss = [y for y in wc.calls() if y.matches(r"Option::<T>::is_some$")]
-        run.check(any(true_edge(wc, y) and wc.edge_dominates(true_edge(wc, y), u[0].site) for y in iss), "untrack-only-on-match", "completion untracks only when the key was in flight", "a stale completion untracks a key", u[0].where())
+        se_ = nested_variant_edge(wc, rm[0], ["Some"])
+        run.check(any(true_edge(wc, y) and wc.edge_dominates(true_edge(wc, y), u[0].site) for y in iss) or bool(se_ and wc.edge_dominates(se_, u[0].site)), "untrack-only-on-match", "completion untracks only when the key was in flight", "a stale completion untracks a key", u[0].where())
 
 
 def r5(run, db):
